@@ -64,9 +64,19 @@ let run (id : string) (hdr : string list) (lines : string list list) (out : stri
     (* before a Begin through the service the harness runs CleanupStaleTransactions itself and
        lets the goroutines it wakes run (then the service runs it again inside the call) *)
     let pre_begin c =
-      if cfg.c_svc && not (has_pending c !s) then
-        Stdlib.List.filter (function OMaint _ -> false | _ -> true) (ev EStale)
-      else [] in
+      if cfg.c_svc && not (has_pending c !s) then begin
+        (* repeated until the set of registered transactions no longer changes *)
+        let acc = ref [] in
+        let continue = ref true and rounds = ref 0 in
+        while !continue && !rounds < 50 do
+          let before = Stdlib.List.map (fun (r : rent) -> r.r_id) !s.reg in
+          let o = ev EStale in
+          acc := !acc @ Stdlib.List.filter (function OMaint _ -> false | _ -> true) o;
+          incr rounds;
+          if Stdlib.List.map (fun (r : rent) -> r.r_id) !s.reg = before then continue := false
+        done;
+        !acc
+      end else [] in
     let rec go ls =
       match ls with
       | [] -> ()
